@@ -185,8 +185,24 @@ func H20_openfail() {
 	sb, _, _ := vSmallSegment()
 	path := vP("o.zap")
 	vAssert(sb.Persist(path) == nil, "persist")
-	kind := vChoice("kind", 3)
+	kind := vChoice("kind", 4)
 	var z ZapPlugin
+	if kind == 3 {
+		// the unmap of the final release fails: the error is reported and the descriptor is closed all the same
+		o, err := z.Open(path)
+		vAssert(err == nil, "open")
+		if vSymbolic() {
+			vFSFailOpen("unmap")
+		} else {
+			// natively: unmap through a copy of the mapping first, so that the segment's own unmap fails
+			cp := o.(*Segment).mm
+			vAssert(cp.Unmap() == nil, "pre-unmap")
+		}
+		err = o.Close()
+		vAssert(err != nil, "unmap-error-reported")
+		vAssert(vFSOpenHandles() == 0, "unmap-failed-descriptor-closed")
+		return
+	}
 	if kind == 2 {
 		// a failure after the file has been opened and mapped: a pre-sections (footer version 15) file with one
 		// field and one document whose doc-value index starts with an overflowing uvarint - Open gets as far
